@@ -163,13 +163,10 @@ fn build_image(log: &[LogOp], prefix: usize, sector: usize, dropped: &HashSet<us
     let mut last_sync: BTreeMap<String, usize> = BTreeMap::new();
     for (i, op) in log[..prefix].iter().enumerate() {
         match op {
+            // writes and syncs through one descriptor carry the path the file was opened under, so a later
+            // rename must not re-key the sync (the data synced under the old name stays synced)
             LogOp::Sync { path } => {
                 last_sync.insert(path.clone(), i);
-            }
-            LogOp::Rename { from, to } => {
-                if let Some(v) = last_sync.remove(from) {
-                    last_sync.insert(to.clone(), v);
-                }
             }
             _ => {}
         }
